@@ -65,6 +65,10 @@ GNext ==
      \/ \E c \in OutChans : AdvanceIdx(c) /\ Log(Ev("AdvanceIdx", 0, <<>>, <<>>, c, TRUE))
      \/ \E c \in (InChans \cup OutChans) :
            Len(hist) >= CloseAfter /\ CloseChan(c) /\ Log(Ev("CloseChan", 0, <<>>, <<>>, c, TRUE))
+     \/ \E c \in OutChans :
+           Len(hist) >= CloseAfter /\
+           \/ MarkChan(c, "borked") /\ Log(Ev("MarkBorked", 0, <<>>, <<>>, c, TRUE))
+           \/ MarkChan(c, "commitbc") /\ Log(Ev("MarkCommitBroadcast", 0, <<>>, <<>>, c, TRUE))
      \/ GCrashOk /\ Crash /\ Log(Ev("Crash", 0, <<>>, <<>>, -1, TRUE))
      \/ \E ok \in {x \in BOOLEAN : GStartOk(x)} :
            \/ StartClean(ok) /\ Log(Ev("StartClean", 0, <<>>, <<>>, -1, ok))
@@ -77,9 +81,9 @@ Dump == (Len(hist) = MaxLen) =>
 
 \* Witness search (exhaustive BFS, VIEW without hist, Thin = FALSE, no-op calls skipped): the first
 \* state that breaks the targeted part of the property is dumped with the schedule that leads to it.
-GView == <<dAdds, dKeys, pending, opened, closed, mode, trimTodo, thr, closedChans, resMsgs,
+GView == <<dAdds, dKeys, pending, opened, closed, mode, trimTodo, thr, closedChans, chanStatus, resMsgs,
            nextIdx, addsCount, respCount, snap, fresh, nops, ncrash, nfail>>
-gcore == <<dAdds, dKeys, pending, opened, closed, mode, trimTodo, thr, closedChans, resMsgs,
+gcore == <<dAdds, dKeys, pending, opened, closed, mode, trimTodo, thr, closedChans, chanStatus, resMsgs,
            nextIdx, addsCount, respCount, ncrash, nfail>>
 WSpec == GInit /\ [][GNext /\ gcore' # gcore]_<<vars, hist>>
 Found(holds) == holds \/ ~ndJsonSerialize("witness.ndjson", hist)
